@@ -129,7 +129,7 @@ PLAN = {
              "request",
     ),
     "C08": dict(
-        streams=[("corpus", 0, 0), ("apply", 12000, 150000), ("limit", 3000, 30000), ("small", 0, 0), ("index", 0, 0)],
+        streams=[("corpus", 0, 0), ("apply", 12000, 150000), ("limit", 3000, 30000), ("small", 0, 0), ("index", 0, 0), ("hist", 3000, 30000)],
         theorems=[],
         facts=[F + "errorSites_eq", F + "applyReturnsNil_eq", F + "opDispatch_eq", F + "conditions_eq"],
         rule=_apply_rule + "; for a failing patch the harness also applies the patch cut after its first failing operation; non-trivial = C08 "
@@ -286,5 +286,9 @@ BODY_FACTS = {
 for _pid in ["C%02d" % _i for _i in range(1, 17)]:
     BODY_FACTS[_pid] = BODY_FACTS[_pid] + [f for f in _B("codec_decode", "codec_encode", "codec_scanner", "codec_indent", "codec_other")
                                             if f not in BODY_FACTS[_pid]]
+# stream.go shares the package's pools and scanner with Unmarshal/Valid/Compact: an edit there can reach the entry points
+# whose acceptance (C16), purity (C09) and thread safety (C10) are claimed, and the no-panic claim (C04)
+for _pid in ("C04", "C09", "C10", "C16"):
+    BODY_FACTS[_pid] = BODY_FACTS[_pid] + [f for f in _B("codec_stream") if f not in BODY_FACTS[_pid]]
 for _pid, _fs in BODY_FACTS.items():
     PLAN[_pid]["facts"] = list(PLAN[_pid].get("facts", [])) + [f for f in _fs if f not in PLAN[_pid].get("facts", [])]
